@@ -125,7 +125,7 @@ theorem c16_granted_sub_polls_like_sync (a : AWorld) (i : Nat) (hal : a.w.subAli
     (hg : a.subLock.getD i .idle = .granted) (w' : OWorld Nat) (r : PollRes Nat) (hp : a.w.poll i = some (w', r)) :
     ∃ a' wk, a.pollSub i = some (a', r, wk) ∧ a'.w = w' := by
   unfold AWorld.pollSub
-  simp only [hal, Bool.not_true, Bool.false_eq_true, if_false, hg, hp]
+  simp only [hal, Bool.not_true, Bool.false_eq_true, if_false, hg, OWorld.pollW_self, hp]
   exact ⟨_, _, rfl, by simp [AWorld.releaseN, grant_w]⟩
 
 end EV
